@@ -2,6 +2,7 @@ package c16
 
 import (
 	"crypto"
+	"encoding/json"
 	"fmt"
 	"net"
 	"reflect"
@@ -628,6 +629,14 @@ func checkReadOnly(c msgCase) error {
 		opt.SetExtendedRcode(uint16(lib.Rcode))
 	}
 	pbt.Note(msgKey(c.M), len(c.M.AllRecs()) > 0, fmt.Sprintf("records=%d", min(len(c.M.AllRecs()), 6)))
+	// (counted: the layouts of the additional section in which something that is printed or packed
+	// apart - an OPT record - stands before other records, e.g. [..., OPT, TSIG])
+	for i, rr := range lib.Extra {
+		if rr.Header().Rrtype == dns.TypeOPT && i+1 < len(lib.Extra) {
+			pbt.Class("extra:opt-before-other-records")
+			break
+		}
+	}
 	// the library accepts SVCB parameters (and mandatory key lists) in any order and sorts while
 	// packing: hand them over in descending order so that an in-place sort becomes visible
 	for _, rr := range append(append(append([]dns.RR{}, lib.Answer...), lib.Ns...), lib.Extra...) {
@@ -817,6 +826,24 @@ func checkSign(c signCase) error {
 			hand = append(hand, handLens(rr, c.Hand)...)
 		}
 	}
+	// (counted: sets in which a record is there twice - same RDATA, the TTL may differ - as a reply
+	// from a foreign server may hold them; a signer or validator that drops repeats has to do so on
+	// its own copy of the slice)
+	rep, repInside := false, false
+	for i := range c.Recs {
+		for j := i + 1; j < len(c.Recs); j++ {
+			if reflect.DeepEqual(c.Recs[i].Fields, c.Recs[j].Fields) {
+				rep = true
+				repInside = repInside || j+1 < len(c.Recs)
+			}
+		}
+	}
+	if rep {
+		hand = append(hand, "rrset:repeats-a-record")
+	}
+	if repInside {
+		hand = append(hand, "rrset:repeats-a-record:followed-by-another")
+	}
 	key, priv := signKey()
 	_, mut := mutableShape(c.Recs[0])
 	pbt.Note([]byte(snap(rrset)), mut || len(rrset) > 1 || len(rdataNames(&c.Recs[0])) > 0, append(append(hand, canonClasses(c.Recs)...), "type:"+typeName(c.Recs[0].Type), fmt.Sprintf("rrset=%d", len(rrset)))...)
@@ -882,6 +909,19 @@ func signVerifyReadOnly(sig *dns.RRSIG, key *dns.DNSKEY, priv crypto.Signer, sig
 	return "verified", nil
 }
 
+// cloneRec: a model record that shares nothing with r (the model is plain data).
+func cloneRec(r wm.Rec) wm.Rec {
+	var out wm.Rec
+	b, err := json.Marshal(r)
+	if err == nil {
+		err = json.Unmarshal(b, &out)
+	}
+	if err != nil {
+		panic(err)
+	}
+	return out
+}
+
 func genSign(t *rapid.T) signCase {
 	owner := gen.Name(t, gen.NameOpts{MaxLabs: 2, MaxLabel: 6})
 	owner = append(owner, []byte("Example"))
@@ -925,6 +965,15 @@ func genSign(t *rapid.T) signCase {
 		r := gen.RecOfType(t, typ, o)
 		r.Name, r.Class = owner, 1
 		recs = append(recs, r)
+	}
+	// one set in six holds a record twice, the second time with a TTL of its own and anywhere in the
+	// slice (what a careless or hostile sender puts into a reply, RFC 2181 5.2): whatever a signer or
+	// validator does about repeats, it does to its own copy
+	if rapid.IntRange(0, 5).Draw(t, "repeat") == 0 {
+		d := cloneRec(recs[rapid.IntRange(0, len(recs)-1).Draw(t, "repeatof")])
+		d.TTL = rapid.SampledFrom([]uint32{d.TTL, d.TTL / 2, 0, 60, 0xFFFFFFFF}).Draw(t, "repeatttl")
+		k := rapid.IntRange(0, len(recs)).Draw(t, "repeatat")
+		recs = append(recs[:k:k], append([]wm.Rec{d}, recs[k:]...)...)
 	}
 	// where the set stands with respect to each step of RFC 4034 6.2 (see canonPlan)
 	canonPlan(t, recs)
